@@ -12,10 +12,10 @@ def c18Facts : Facts :=
 def c18Id (chain h : Nat) : Nat := 2 * h + chain + 10
 def c18BM (chain h : Nat) : BM := { height := h, hash := c18Id chain h, prev := if h = 0 then 0 else c18Id chain (h - 1) }
 
-/-- `b <local|-1> <last> <resp…>`, resp = `-` or `chain.height` per requested height local+1.. -/
+/-- `b <local|-1> <last> <lastBlockNewer 0|1> <resp…>`, resp = `-` or `chain.height` per requested height local+1.. -/
 def stepC18 (ts : List String) : String :=
   match ts with
-  | "b" :: loc :: last :: resps =>
+  | "b" :: loc :: last :: newer :: resps =>
     match loc.toInt?, last.toNat? with
     | some loc, some last =>
       let locBM : Option BM := if loc < 0 then none else some (c18BM 0 loc.toNat)
@@ -25,7 +25,7 @@ def stepC18 (ts : List String) : String :=
         | some [c, h] => some (c18BM c h)
         | _ => none)
       let resp := fun (h : Nat) => if h < frm then none else (parsed[h - frm]?).getD none
-      match build c18Facts locBM (c18BM 0 last) resp with
+      match build c18Facts locBM (c18BM 0 last) resp (newer == "1") with
       | .ok hs => "ok " ++ ",".intercalate (hs.map (fun o => match o with | some h => toString h | none => "nil"))
       | .err => "err"
       | .panic => "panic"
